@@ -21,6 +21,7 @@ import (
 	"sort"
 	"strings"
 	"sync"
+	"time"
 
 	cgen "github.com/google/wuffs/lang/verifc05"
 
@@ -273,7 +274,7 @@ func sameStd(a, b stdRes, tokens bool) (bool, string) {
 	return true, ""
 }
 
-func sectionD(r *hlib.Run, general, hist bool) {
+func sectionD(r *hlib.Run, general, hist, noic bool) {
 	defer cdrv.Cleanup()
 	// quick tier: the gcc -O2 build only (the sanitizer build of the whole library takes minutes
 	// on a loaded machine; sections B and C run under ASan+UBSan in both tiers)
@@ -292,6 +293,7 @@ func sectionD(r *hlib.Run, general, hist bool) {
 	}
 	rng := r.Rand.Fork()
 	hrng := r.Rand.Fork()
+	nrng := r.Rand.Fork()
 	maxLen, perCodec, nEnc, maxPoints := 900, 1, 1, 48
 	if r.Thorough {
 		maxLen, perCodec, nEnc, maxPoints = 6000, 8, 10, 1<<30
@@ -314,6 +316,12 @@ func sectionD(r *hlib.Run, general, hist bool) {
 				d.Close()
 			}
 		}()
+	}
+	if noic {
+		// third part: image decoders without a prior decode_image_config (stdnoic.go)
+		tN := time.Now()
+		noicSweep(r, ds, fls, have, nrng)
+		r.Extra("seconds:D-part-N", time.Since(tN).Seconds())
 	}
 	if !general {
 		return
